@@ -18,6 +18,7 @@ type Contract struct {
 	OnStores []*OnStore
 	OnCalls  []*OnCall
 	Decreases map[string][]*Clause // loop key -> measures
+	Steps     map[string][]*Clause // loop key -> relations between the values before and after one iteration (prev(x))
 	OnMapDeletes []*OnStore // assertions at delete(m, k) where m was loaded from the named field ($key, $was, $owner)
 	OnMapUpdates []*OnStore // assertions at m[k] = v where m was loaded from the named field ($key, $value, $was, $owner)
 	CountStores []string // struct field names whose stores are counted in ghost $nstore_<field>
